@@ -525,7 +525,8 @@ INVALID_KINDS = ["yaml_syntax", "duplicate_type", "unknown_type", "bad_field_nam
 # (a record as map key and a stream of streams are accepted by yardl - the pinned upstream too - although the language guide rules them
 #  out: C09's business; they are not used as "certainly invalid" changes)
 RULE_KINDS = ["generic_arity", "unused_type_parameter", "duplicate_union_case", "duplicate_enum_value", "recursive_record",
-              "computed_field_unknown_member", "computed_field_bad_call", "duplicate_field", "reserved_primitive_name", "null_not_first"]
+              "computed_field_unknown_member", "computed_field_bad_call", "duplicate_field", "reserved_primitive_name", "null_not_first",
+              "generic_given_one_type_twice"]
 
 
 def model_files(files: dict, pkgdir: str) -> list:
@@ -600,6 +601,32 @@ def invalidate(files: dict, pkgdir: str, rng: Rng, kind: str) -> tuple:
         "null_not_first": "NullPos%d: !record\n  fields:\n    u: [int, null]\n",
         "stream_of_stream": "NestedS%d: !protocol\n  sequence:\n    s: !stream\n      items: !stream\n        items: int\n",
     }
+    if kind == "generic_given_one_type_twice" and mfs:
+        # a generic union that is used correctly first - also with two types that merely look alike, the same simple name in
+        # two imported namespaces, where the package has such a pair - and then with one type for both parameters
+        import os.path as _op, re as _re
+        k = rng.randint(100, 999)
+        byname = {}
+        for rel in _re.findall(r"^\s*-\s*(\.\./[\w./-]+)\s*$", files.get(man, ""), _re.M):
+            d = _op.normpath(pkgdir + "/" + rel)
+            m = _re.search(r"^namespace:\s*(\w+)", files.get(d + "/_package.yml", ""), _re.M)
+            if not m:
+                continue
+            for q in model_files(files, d):
+                for nm in _re.findall(r"^([A-Z][A-Za-z0-9]*): !record", files[q], _re.M):
+                    byname.setdefault(nm, [])
+                    if m.group(1) not in byname[nm]:
+                        byname[nm].append(m.group(1))
+        pairs = sorted((nm, nss) for nm, nss in byname.items() if len(nss) >= 2)
+        text = "GenEither%d<A, B>: !union\n  first: A\n  second: B\n\nUsesGenEither%d: !record\n  fields:\n    fine: GenEither%d<int, string>\n" % (k, k, k)
+        if pairs:
+            nm, nss = rng.choice(pairs)
+            text += "    alike: GenEither%d<%s.%s, %s.%s>\n    twice: GenEither%d<%s.%s, %s.%s>\n" % (k, nss[0], nm, nss[1], nm, k, nss[0], nm, nss[0], nm)
+        else:
+            text += "    twice: GenEither%d<string, string>\n" % k
+        p = rng.choice(mfs)
+        files[p] = files[p] + "\n" + text
+        return files, "generic union given one type twice%s in %s" % (" after a look-alike pair from two namespaces" if pairs else "", p)
     if kind in RULE_BREAKERS and mfs:
         p = rng.choice(mfs)
         k = rng.randint(100, 999)
